@@ -321,7 +321,8 @@ func LoadConfigFiles(ctx context.Context, configFiles []string, workingDir strin
 	for _, op := range options {
 		op(opts)
 	}
-	opts.ResourceLoaders = append(opts.ResourceLoaders, localResourceLoader{})
+	// a slice set by an option function may be the caller's own, with spare capacity: do not append in place
+	opts.ResourceLoaders = append(opts.ResourceLoaders[:len(opts.ResourceLoaders):len(opts.ResourceLoaders)], localResourceLoader{})
 
 	for i, p := range configFiles {
 		if p == "-" {
@@ -408,7 +409,9 @@ func toOptions(configDetails *types.ConfigDetails, options []func(*Options)) *Op
 	for _, op := range options {
 		op(opts)
 	}
-	opts.ResourceLoaders = append(opts.ResourceLoaders, localResourceLoader{configDetails.WorkingDir})
+	// a slice set by an option function may be the caller's own, shared with concurrent loads and with spare
+	// capacity: appending in place would write this load's working directory into the other loads' list
+	opts.ResourceLoaders = append(opts.ResourceLoaders[:len(opts.ResourceLoaders):len(opts.ResourceLoaders)], localResourceLoader{configDetails.WorkingDir})
 	return opts
 }
 
